@@ -316,6 +316,30 @@ pub use self::{
 
 pub use self::{collect::Interest, metadata::Kind};
 
+/// Verification hook (`--cfg tracing_verif` only): schedule yield points.  A harness installs a
+/// callback; instrumented places in `tracing-core`, `tracing` and `tracing-subscriber` call
+/// `yield_point(id)` immediately before an atomic operation or lock acquisition.  No-op when unset.
+#[cfg(all(tracing_verif, feature = "std"))]
+#[doc(hidden)]
+pub mod __verif {
+    use std::sync::RwLock;
+    #[allow(clippy::type_complexity)]
+    static YIELD: RwLock<Option<std::boxed::Box<dyn Fn(u32) + Send + Sync>>> = RwLock::new(None);
+    /// Installs (or removes) the yield callback.
+    pub fn set_yield(f: Option<std::boxed::Box<dyn Fn(u32) + Send + Sync>>) {
+        *YIELD.write().unwrap() = f;
+    }
+    /// Called at instrumented scheduling points.
+    #[inline]
+    pub fn yield_point(id: u32) {
+        if let Ok(g) = YIELD.read() {
+            if let Some(f) = g.as_ref() {
+                f(id)
+            }
+        }
+    }
+}
+
 mod sealed {
     pub trait Sealed {}
 }
